@@ -193,8 +193,18 @@ static void randomCase(Rng &rng, CaseResult &r, bool cascade = false) {
   }
   (void)mode;
   try {
+    TransportationProblem untouched = pb;
     pb.solve();
     checkSolved(pb, dem, S <= 3 && K <= 3 && maxv <= 20, what, r);
+    if (r.viol.empty() && rng.chance(0.3)) {
+      // solving the same object again, and solving a copy taken before the first solve, must give plans that pass the same oracles
+      pb.solve();
+      checkSolved(pb, dem, false, what + " (second solve of the same object)", r);
+      untouched.solve();
+      checkSolved(untouched, dem, false, what + " (copy taken before the first solve)", r);
+      if (r.viol.empty() && untouched.allocations() != pb.allocations()) r.fail("C13:second-solve-gives-another-plan", "the plan of a second solve() differs from the plan computed on a copy of the unsolved problem: " + what);
+      r.count("problems_solved_again");
+    }
   } catch (const std::exception &e) {
     r.fail("C13:solver-threw-on-a-feasible-problem", std::string(e.what()) + ": " + what + " " + pbStr(pb.capacities(), dem, pb.costs()));
   }
